@@ -182,6 +182,22 @@ def restrict(t, decide):
             return restrict(t[2], decide)
         if d is False:
             return restrict(t[3], decide)
+        from .sval import is_const, cval
+        tt = restrict(t[1], decide)
+        if is_const(tt):
+            return restrict(t[2] if cval(tt) else t[3], decide)
+        if tt[0] == 'not' and is_const(tt[1]):
+            return restrict(t[3] if cval(tt[1]) else t[2], decide)
+        return ('cond', tt, restrict(t[2], decide), restrict(t[3], decide))
+    if t[0] == 'not' and len(t) == 2:
+        from .sval import is_const, cval, const
+        x = restrict(t[1], decide)
+        d = decide(x) if not is_const(x) else None
+        if is_const(x):
+            return const(not cval(x))
+        if d is not None:
+            return const(not d)
+        return ('not', x)
     if t[0] in ('list', 'add', 'dict', 'set') and len(t) == 2 and isinstance(t[1], tuple):
         items = []
         for it in t[1]:
